@@ -186,10 +186,11 @@ func ParsePKCS8(der []byte) (*PrivateKey, error) {
 
 // ECEncoding selects how BuildECPKCS8 lays out the optional parts.
 type ECEncoding struct {
-	OuterOID  bool // curve OID in the PKCS#8 AlgorithmIdentifier
-	InnerOID  bool // curve OID inside ECPrivateKey [0]
-	Public    bool // embed [1] publicKey
-	ScalarLen int  // 0 = fixed width of the curve order; otherwise exact length (must fit)
+	OuterOID   bool // curve OID in the PKCS#8 AlgorithmIdentifier
+	InnerOID   bool // curve OID inside ECPrivateKey [0]
+	Public     bool // embed [1] publicKey
+	Compressed bool // the embedded public key uses the compressed point form (02/03 || X)
+	ScalarLen  int  // 0 = fixed width of the curve order; otherwise exact length (must fit)
 }
 
 // BuildECPKCS8 encodes an EC private key as PKCS#8 with the chosen layout,
@@ -209,7 +210,12 @@ func BuildECPKCS8(ci *CurveInfo, d *big.Int, enc ECEncoding) []byte {
 	}
 	if enc.Public {
 		x, y := ci.Curve.ScalarBaseMult(d.Bytes())
-		parts = append(parts, refder.Explicit(1, refder.EncBitString(MarshalPoint(ci, x, y), 0)))
+		pt := MarshalPoint(ci, x, y)
+		if enc.Compressed {
+			l := (ci.Curve.Params().BitSize + 7) / 8
+			pt = append([]byte{byte(2 + y.Bit(0))}, pt[1:1+l]...)
+		}
+		parts = append(parts, refder.Explicit(1, refder.EncBitString(pt, 0)))
 	}
 	ecpk := refder.Seq(parts...)
 	algParts := [][]byte{refder.MustOID(OIDECPublicKey)}
